@@ -31,6 +31,42 @@ def special_docs():
     ]
 
 
+def multi_param_docs(rng, n):
+    """several HTTP paths over a small pool of segments and parameter names, so that two paths of
+    one document often share their first parameter, their number of parameters, their set of
+    parameter names or a prefix; a Path directive defines all, some or none of the parameters"""
+    segs = ["shops", "items", "orders", "v1", "x"]
+    names = ["id", "shopId", "itemId", "orderId", "k"]
+    docs = []
+    for _ in range(n):
+        lines = ["JSIGHT 0.3", ""]
+        seen = set()
+        for _ in range(rng.randint(2, 5)):
+            np = rng.randint(1, 3)
+            ps = rng.sample(names, np)
+            if rng.random() < 0.6:
+                ps[0] = names[1]
+            ps = list(dict.fromkeys(ps))
+            parts = []
+            for q in ps:
+                parts += [rng.choice(segs), "{%s}" % q]
+            if rng.random() < 0.3:
+                parts.append(rng.choice(segs))
+            path = "/" + "/".join(parts)
+            shape = re.sub(r"\{[^}]*\}", "{}", path)
+            if shape in seen:
+                continue
+            seen.add(shape)
+            lines.append("%s %s" % (rng.choice(["GET", "POST", "DELETE"]), path))
+            defined = [q for q in ps if rng.random() < 0.6]
+            if defined:
+                lines += ["  Path", "  {"] + ["    \"%s\": %s%s" % (q, rng.choice(["1", "\"a\""]), "," if i < len(defined) - 1 else "")
+                                              for i, q in enumerate(defined)] + ["  }"]
+            lines += ["  200 any", ""]
+        docs.append("\n".join(lines) + "\n")
+    return docs
+
+
 def lazy_docs():
     """objects with a user-type key (@k: value): the dependency converts parts of them only while the
     document is written out (inside MarshalJSON), for every additionalProperties value and or-form,
@@ -171,6 +207,7 @@ def run(tier, out, model_ok, proof):
     import importlib
     rm = [d for _, d in importlib.import_module("checks.C01").reference_matrix()]
     docs += rm if big else rm[::4]
+    docs += [d.encode() for d in multi_param_docs(random.Random(seed() + 17), 600 if big else 120)]
     for i in range(1500 if big else 200):
         docs.append(render(typedgen.gen_typed(rng)))
     for i in range(800 if big else 120):
